@@ -177,6 +177,9 @@ type ReaderSpec struct {
 	// is not a read error - the peer's messages still arrive.  Spec only (Cmp off): the model's
 	// write side starts open.
 	PreClose bool `json:"pre_close,omitempty"`
+	// OfferDeclined (with ViaDial, Negotiated false): the Dialer has EnableCompression set but the 101
+	// does not announce permessage-deflate: the connection is an uncompressed one in every respect
+	OfferDeclined bool `json:"offer_declined,omitempty"`
 }
 
 type hErr struct{ id int }
@@ -251,6 +254,8 @@ func isFlateErr(err error) bool {
 type hrec struct {
 	kind, op, code int
 	payload        []byte
+	kept           string // the handler's argument itself, looked at only when the run is over
+	useKept        bool
 }
 
 // withNilHandlers makes every fourth default-handler case of a generator restore the defaults explicitly
@@ -295,7 +300,7 @@ func readerExec(s core.Spec) core.Exec {
 		for _, ch := range chunks {
 			stream = append(stream, ch...)
 		}
-		d := websocket.Dialer{ReadBufferSize: sp.RBuf, EnableCompression: sp.Negotiated}
+		d := websocket.Dialer{ReadBufferSize: sp.RBuf, EnableCompression: sp.Negotiated || sp.OfferDeclined}
 		d.NetDial = func(network, addr string) (net.Conn, error) {
 			rconn = &reactConn{failAt: -1, fault: sp.Fault}
 			rconn.respond = func(req []byte) [][]byte {
@@ -387,10 +392,12 @@ func readerExec(s core.Spec) core.Exec {
 		c.SetCloseHandler(nil)
 	}
 	if sp.Custom {
-		c.SetPingHandler(func(p string) error { hlog = append(hlog, hrec{0, opidx, 0, []byte(p)}); return hres() })
-		c.SetPongHandler(func(p string) error { hlog = append(hlog, hrec{1, opidx, 0, []byte(p)}); return hres() })
+		// the application keeps the strings it was given (strings are immutable: what it reads later
+		// must be what the frame carried)
+		c.SetPingHandler(func(p string) error { hlog = append(hlog, hrec{kind: 0, op: opidx, kept: p, useKept: true}); return hres() })
+		c.SetPongHandler(func(p string) error { hlog = append(hlog, hrec{kind: 1, op: opidx, kept: p, useKept: true}); return hres() })
 		c.SetCloseHandler(func(code int, text string) error {
-			hlog = append(hlog, hrec{2, opidx, code, []byte(text)})
+			hlog = append(hlog, hrec{kind: 2, op: opidx, code: code, payload: []byte(text)})
 			return hres()
 		})
 	}
@@ -550,7 +557,11 @@ func readerExec(s core.Spec) core.Exec {
 		if e.kind == 2 {
 			h.N(e.code)
 		}
-		h.Bytes(e.payload)
+		if e.useKept {
+			h.Bytes([]byte(e.kept))
+		} else {
+			h.Bytes(e.payload)
+		}
 	}
 	full += " " + h.String()
 	w := core.NewTape(0)
